@@ -115,7 +115,8 @@ def _sim(draw, cfg):
     return {"kind": "sim", "spec": draw(gen.model_spec(cfg))}
 
 
-CFG_PAIRS = CFG_SIM.copy(max_wps=2, max_facs_per_wp=3, min_tasks=3, max_tasks=6, max_workers=4, inputs=False)
+CFG_PAIRS = CFG_SIM.copy(max_wps=2, max_facs_per_wp=3, min_tasks=3, max_tasks=6, max_workers=4, inputs=False, kinds=[0, 0, 0, 1, 2, 3],
+                          work_pool=[0.0, 0.0, 0.5, 1.0, 1.0, 2.0, 3.0, 4.0])
 
 
 @st.composite
@@ -123,10 +124,40 @@ def _sim_pairs(draw, cfg):
     return {"kind": "sim", "spec": gen.single_task_components(draw(gen.model_spec(cfg)))}
 
 
+@st.composite
+def _sim_dense_pairs(draw, cfg):
+    """Pairs profile in which everybody can do everything (all skills positive, every team and workplace serves every
+    task, room for all components, few workers): who gets a worker is then decided by the priority order alone, also
+    for tasks with nothing left to do (zero work, or held WORKING by a finish-to-finish link)."""
+    spec = gen.single_task_components(draw(gen.model_spec(cfg)))
+    n = len(spec["tasks"])
+    for tm in spec["teams"]:
+        tm["targets"] = list(range(n))
+        tm.pop("notask", None)
+    for wp in spec["wps"]:
+        wp["targets"] = list(range(n))
+        wp.pop("notask", None)
+        wp["cap"] = 100.0
+    for f in spec["facs"]:
+        f["skills"] = {str(i): draw(st.sampled_from([0.5, 1.0, 1.0])) for i in range(n)}
+        f["solo"] = False
+    spec["workers"] = spec["workers"][: draw(st.integers(1, 2))]
+    for w in spec["workers"]:
+        w["skills"] = {str(i): draw(st.sampled_from([0.5, 1.0, 1.0])) for i in range(n)}
+        w["fsk"] = {str(j): 1.0 for j in range(len(spec["facs"]))}
+        w["solo"] = draw(st.booleans())
+    for t in spec["tasks"]:
+        t["fixw"] = None
+        t["fixf"] = None
+    gen.share_skills_by_name(spec)
+    return {"kind": "sim", "spec": spec}
+
+
 def strategy(tier):
     if tier == "quick":
-        return st.one_of(_lists(), _sim(CFG_SIM), _sim_pairs(CFG_PAIRS))
-    return st.one_of(_lists(), _sim(CFG_SIM.copy(max_tasks=12, max_workers=6)), _sim_pairs(CFG_PAIRS.copy(max_tasks=9, max_workers=6)))
+        return st.one_of(_lists(), _sim(CFG_SIM), _sim_pairs(CFG_PAIRS), _sim_dense_pairs(CFG_PAIRS))
+    return st.one_of(_lists(), _sim(CFG_SIM.copy(max_tasks=12, max_workers=6)), _sim_pairs(CFG_PAIRS.copy(max_tasks=9, max_workers=6)),
+                     _sim_dense_pairs(CFG_PAIRS.copy(max_tasks=9, max_workers=6)))
 
 
 def budget(tier):
